@@ -256,19 +256,6 @@ theorem flattenLoop_safe (msg : Bytes) (t : RType) (r : Reader) (hr : RInv msg r
     | panic p => rw [he] at hx; exact hx.elim
     | ub => rw [he] at hx; exact hx.elim
 
-theorem CurM.bind_ok_inv {α β} {x : CurM α} {f : α → CurM β} {c c' : Cur} {b : β}
-    (h : (x >>= f) c = (.ok b, c')) : ∃ a c1, x c = (.ok a, c1) ∧ f a c1 = (.ok b, c') := by
-  change CurM.bind x f c = (.ok b, c') at h
-  unfold CurM.bind at h
-  cases hx : x c with
-  | mk res c1 =>
-    rw [hx] at h
-    cases res with
-    | ok a => exact ⟨a, c1, rfl, h⟩
-    | err e => simp at h
-    | panic p => simp at h
-    | ub => simp at h
-
 theorem readQuestionRef_qname {msg : Bytes} {c c' : Cur} {q : QuestionRef} (h : readQuestionRef msg c = (.ok q, c')) :
     q.qname = c := by
   unfold readQuestionRef at h
